@@ -16,6 +16,10 @@ package memefish
 // @   ensures len(s) > 0 && s[0] >= 128 ==> result0 >= 128
 // @   ensures result1 > 1 ==> (forall j: 0 <= j && j < result1 ==> s[j] >= 128)
 // @   ensures 0 <= result0 && result0 <= 1114111
+// uf_utf8valid(s): s starts with a well-formed multi-byte encoding (the predicate the range-over-string
+// semantics of the verifier uses as well). Not valid: U+FFFD for that one byte.
+// @   ensures[C15] invalid: len(s) > 0 && s[0] >= 128 && !uf_utf8valid(s) ==> result0 == 65533 && result1 == 1
+// @   ensures[C15] valid: len(s) > 0 && s[0] >= 128 && uf_utf8valid(s) ==> result1 >= 2 && result1 == utf8len(result0) && !(55296 <= result0 && result0 <= 57343) && (forall j: 0 <= j && j < result1 ==> s[j] == utf8byte(result0, j))
 
 // @ spec isSpaceASCII(c) = (9 <= c && c <= 13) || c == 32
 
